@@ -1,5 +1,7 @@
 """Confirm a seeded change and run the property check against it.
-usage: seedtest.py <property id> <variant dir (patch.diff, demo.py, meta.json)> [--tests]
+usage: seedtest.py <property id> <variant dir (patch.diff, demo.py, meta.json)> [--tests] [--tag NAME] [--check-id Cyy]
+(--tag: directory name under /verif/seeded; --check-id: run another property's check against the change, e.g. a C07 change
+whose effect is a C13 clause)
 1. scratch worktree of /repo HEAD: demo exits 0 clean, 1 with the patch; (optionally) the stable baseline tests still pass;
 2. apply the patch to /repo, run ./check <id>, undo; 3. store everything under /verif/seeded/<id>_<variant>/."""
 import json
@@ -14,8 +16,11 @@ pid, vdir = sys.argv[1], os.path.abspath(sys.argv[2])
 run_tests = '--tests' in sys.argv
 variant = os.path.basename(vdir.rstrip('/'))
 tag = '%s_%s' % (pid, variant)
+if '--tag' in sys.argv:
+    tag = sys.argv[sys.argv.index('--tag') + 1]
+check_id = sys.argv[sys.argv.index('--check-id') + 1] if '--check-id' in sys.argv else pid
 scratch = '/tmp/confirm_' + tag
-env = dict(os.environ, PYTHONHASHSEED='0', MPLBACKEND='Agg')
+env = dict(os.environ, PYTHONHASHSEED='0', MPLBACKEND='Agg', OMP_NUM_THREADS='1', OPENBLAS_NUM_THREADS='1', MKL_NUM_THREADS='1')
 
 
 def sh(cmd, cwd=None, timeout=3600, extra_env=None):
@@ -98,11 +103,26 @@ try:
             res['stable_tests_selected'] = len(sel)
             ids = sel or ids[:5]
         t0 = time.time()
-        rc, out = sh('/venv/bin/python -m pytest -q -p no:cacheprovider --timeout=900 -x ' + ' '.join("'%s'" % i for i in ids) + ' 2>&1 | tail -5',
-                     cwd=scratch, timeout=7200)
+
+        def run_ids(idl):
+            rc_, out_ = sh('/venv/bin/python -m pytest -q -p no:cacheprovider --timeout=900 -rf ' + ' '.join("'%s'" % i for i in idl) + ' 2>&1 | tail -40',
+                           cwd=scratch, timeout=7200)
+            import re as _re
+            failed = _re.findall(r'^(?:FAILED|ERROR) (\S+)', out_, _re.M)
+            ok_ = (' passed' in out_ and ' failed' not in out_ and ' error' not in out_.lower().replace('errors', 'error'))
+            return ok_, failed, out_
+        ok_t, failed, out = run_ids(ids)
         res['stable_tests_tail'] = out[-400:]
+        reruns = 0
+        # a test that fails is re-run alone (twice at most): tests with unseeded randomness (e.g.
+        # test_utils.py::test_minimize_with_constraints) fail now and then on the unchanged tree too
+        while not ok_t and failed and reruns < 2:
+            reruns += 1
+            res.setdefault('rerun_failed', []).append(failed)
+            ok_t, failed, out2 = run_ids(failed)
+            res['stable_tests_rerun_tail'] = out2[-300:]
         res['stable_tests_wall_s'] = round(time.time() - t0)
-        res['stable_tests_pass'] = (' failed' not in out and ' error' not in out.lower().replace('errors', 'error') or ' passed' in out and ' failed' not in out)
+        res['stable_tests_pass'] = bool(ok_t)
     shutil.rmtree(wd, ignore_errors=True)
 finally:
     sh('git -C /repo worktree remove --force %s' % scratch)
@@ -115,7 +135,8 @@ rc, out = sh('git -C /repo apply %s' % os.path.join(vdir, 'patch.diff'))
 assert rc == 0, out
 try:
     t0 = time.time()
-    rc, out = sh('VERIF_SEEDTEST=1 ./check %s' % pid, cwd=VERIF, timeout=3600)
+    rc, out = sh('VERIF_SEEDTEST=1 ./check %s' % check_id, cwd=VERIF, timeout=3600)
+    res['check_id'] = check_id
     res['check_rc'] = rc
     res['check_wall_s'] = round(time.time() - t0)
     res['check_violation_lines'] = [l for l in out.split('\n') if l.startswith('VIOLATION')][:5]
